@@ -183,14 +183,21 @@ def main(spec, argv):
             gen = [l for l in open(os.path.join(cdir, 'cases.txt')).read().split('\n') if l]
             gen = spec.expand(st, gen, seed)
             cases, impl, model, mi = run_stream(spec, ctx, st, corpus + gen, tag + '_main')
-            evaluations += len(cases)
+            evaluations += sum(1 for i_ in impl if i_.strip() != '(obs (res timeout))')
             # cross-check the extracted checker against the kernel's own evaluation on a few inputs
             k = 6 if tier == 'quick' else 40
             pairs = sorted([(a, b) for a, b in zip(mi, [m for m in model if m is not None])], key=lambda p: len(p[0]))[:k]
             if pairs:
                 crosschecked += core.cases_v_crosscheck(prop + '_' + tag, [p[0] for p in pairs], [p[1] for p in pairs], cdir, shards=min(6, len(pairs)))
             seen_keys = set()
+            n_timeout = sum(1 for i_ in impl if i_.strip() == '(obs (res timeout))')
+            if n_timeout:
+                counters['note:case-exceeded-time-limit-skipped'] = counters.get('note:case-exceeded-time-limit-skipped', 0) + n_timeout
+                if n_timeout * 10 > len(impl):
+                    raise Broken('stream %s: %d of %d cases exceeded the per-case time limit (the implementation has become much slower or hangs)' % (tag, n_timeout, len(impl)))
             for c, i_, m_ in zip(cases, impl, model):
+                if i_.strip() == '(obs (res timeout))':
+                    continue      # skipped, counted above; never counted as explored
                 if spec.nontrivial(st, c, i_):
                     nontrivial.add(c)
                     if len(samples) < 3:
